@@ -40,8 +40,42 @@ Theorem wf_output_partial driver d :
   nodup_str (field_set_type_names d) = true ->
   forallb (fun f => readable (f_access f)) (all_fields d) = true ->
   forallb enum_literals_ok (enums_of d) = true ->
+  namespaces_ok driver d = true ->
+  keyword_free driver d = true ->
   wf_output driver d = true.
 Proof.
-  intros Hnb Hn1 Hn2 Hr He. unfold wf_output, toplevel_type_names, debug_refs_resolve.
-  rewrite block_structs_declared by assumption. rewrite Hn1, Hn2, Hr, He. reflexivity.
+  intros Hnb Hn1 Hn2 Hr He Hns Hk. unfold wf_output, toplevel_type_names, debug_refs_resolve.
+  rewrite block_structs_declared by assumption. rewrite Hn1, Hn2, Hr, He, Hns, Hk. reflexivity.
+Qed.
+
+(* forallb of a conjunction *)
+Lemma forallb_and3 {A} (f g h : A -> bool) (l : list A) :
+  forallb (fun x => f x && g x && h x) l = forallb f l && forallb g l && forallb h l.
+Proof.
+  induction l as [|a t IH]; [reflexivity|]. cbn [forallb]. rewrite IH.
+  destruct (f a), (g a), (h a), (forallb f t), (forallb g t), (forallb h t); reflexivity.
+Qed.
+
+(* a block ref makes the top-level names collide (the target's struct is emitted again): has_block_ref is not an
+   extra obligation but a named cause; the other tags are exactly the conjuncts of wf_output *)
+Theorem no_failing_obligation_iff driver d :
+  has_block_ref d = false ->
+  (failing_obligations driver d = [] <->
+   debug_refs_resolve d = true /\ forallb enum_literals_ok (enums_of d) = true /\
+   namespaces_ok driver d = true /\ keyword_free driver d = true).
+Proof.
+  intros Hb. unfold failing_obligations. rewrite Hb.
+  unfold enum_literals_ok. rewrite forallb_and3.
+  destruct (debug_refs_resolve d), (forallb enum_dup_free (enums_of d)), (forallb enum_unsigned_ok (enums_of d)),
+           (forallb enum_signed_ok (enums_of d)), (namespaces_ok driver d), (keyword_free driver d);
+    cbn; split; intros H; try discriminate; try reflexivity; try (repeat split; reflexivity);
+    try (destruct H as (? & ? & ? & ?); discriminate).
+Qed.
+
+(* wf_output true -> nothing is tagged *)
+Theorem wf_output_no_tags driver d :
+  has_block_ref d = false -> wf_output driver d = true -> failing_obligations driver d = [].
+Proof.
+  intros Hb H. apply no_failing_obligation_iff; [exact Hb|].
+  unfold wf_output in H. repeat (apply andb_true_iff in H as [H ?]). repeat split; assumption.
 Qed.
